@@ -57,11 +57,14 @@ def check_reuse(case, stats):
     from architecture_simulator.simulation.runtime_errors import InstructionExecutionException
     text = rvtext.render(case["prog"])
     a = rvdrive.new_sim("five", False, case.get("dcache"), None)
-    a.load_program(WARM)
-    a.run()
-    a.load_program(text)
-    b = rvdrive.new_sim("five", False, case.get("dcache"), None)
-    b.load_program(text)
+    try:
+        a.load_program(WARM)
+        a.run()
+        a.load_program(text)
+        b = rvdrive.new_sim("five", False, case.get("dcache"), None)
+        b.load_program(text)
+    except Exception as ex:           # valid programs by construction
+        raise Violation("valid-program-fails", case, f"loading / warming up: {type(ex).__name__}: {ex!r}")
     for i, v in enumerate(a.state.register_file.registers):     # element-wise: the register list hard-wires x0
         b.state.register_file.registers[i] = v
     b.state.program_counter = a.state.program_counter
